@@ -468,6 +468,12 @@ func runCase(raw json.RawMessage) interface{} {
 	if c.Mode == "nodeseq" {
 		return runNodeSeq(c)
 	}
+	if c.Mode == "mgr2" {
+		return runMgr2(c)
+	}
+	if c.Mode == "noderel" {
+		return runNodeRel(c)
+	}
 	if c.Mode == "stress" {
 		return runStress(c)
 	}
